@@ -2,8 +2,8 @@
 #include "e1.h"
 
 static const char *const CNT[] = { "trsv_calls", "trsv_lower", "trsv_upper", "trsv_trans", "trsv_conj", "trsv_lowercase", "trsv_unit_upper", "trsv_L_nonunit_skipped", "gstrs_calls", "gstrs_nrhs0", "gstrs_multi_rhs", "gstrs_padded",
-    "gemv_calls", "gemv_beta0_nan_y", "gemv_rect", "gemm_calls", "multi_col_supernode_factors", "singleton_factors", "bitwise_equal_single_vs_multi", "bitwise_diff_single_vs_multi", NULL };
-enum { K_TRSV, K_TL, K_TU, K_TT, K_TC, K_TLC, K_TUU, K_TLN, K_GS, K_GS0, K_GSM, K_GSP, K_MV, K_MVNAN, K_MVRECT, K_MM, K_MULTI, K_SINGLE, K_BEQ, K_BNE };
+    "gemv_calls", "gemv_beta0_nan_y", "gemv_rect", "gemm_calls", "multi_col_supernode_factors", "singleton_factors", "bitwise_equal_single_vs_multi", "bitwise_diff_single_vs_multi", "gemv_strided", NULL };
+enum { K_TRSV, K_TL, K_TU, K_TT, K_TC, K_TLC, K_TUU, K_TLN, K_GS, K_GS0, K_GSM, K_GSP, K_MV, K_MVNAN, K_MVRECT, K_MM, K_MULTI, K_SINGLE, K_BEQ, K_BNE, K_MVSTR };
 static const char *const RAT[] = { "trsv_residual_over_allowance", "gstrs_residual_over_allowance", "gemv_error_over_allowance", NULL };
 
 static const char *UPLO[] = { "L", "U", "l", "u" };
@@ -27,6 +27,7 @@ static const int RM[] = { 2, 3, 3, 1, 2, 4 }, RN[] = { 1, 1, 2, 2, 3, 2 };
 static long roff[7]; static long rtotal(void) { long s = 0; for (int k = 0; k < 6; k++) { roff[k] = s; s += 1L << (RM[k] * RN[k]); } roff[6] = s; return s; }
 static void s14_gemv_sq(const int *d, vcase *c) { all123(d[0], &c->n, &c->pat); c->m = c->n; c->vals = (int[]){ 15, 7 }[d[1]]; c->type = d[2]; c->aux = 2; c->trans = d[3]; c->k = d[4] * 5 + d[5]; c->rhs = 1; }
 static void s14_gemv_rect(const int *d, vcase *c) { rtotal(); int k = 0; while (d[0] >= roff[k + 1]) k++; c->m = RM[k]; c->n = RN[k]; c->pat = (uint64_t)(d[0] - roff[k]); c->vals = (int[]){ 15, 7 }[d[1]]; c->type = d[2]; c->aux = 2; c->trans = d[3]; c->k = d[4] * 5 + d[5]; c->rhs = 1; }
+static void s14_gemv_str(const int *d, vcase *c) { s14_gemv_rect(d, c); c->aux2 = 1 + d[6]; }
 static void s14_gemm(const int *d, vcase *c) { s14_gemv_rect(d, c); c->aux = 3; c->nrhs = 1 + d[6]; c->ldbx = d[7]; }
 static void s14_gemm_sq(const int *d, vcase *c) { s14_gemv_sq(d, c); c->aux = 3; c->nrhs = 1 + d[6]; c->ldbx = d[7]; }
 static const family F14[] = {
@@ -36,6 +37,7 @@ static const family F14[] = {
     { "xgstrs on factors of DEV_1(BASE(6)) first 10 deviations x vals3 x tune4 x type4 x ordering2 x trans3 x nrhs{0..3} x ldb3", 9, { 9, 10, 3, 4, 4, 2, 3, 4, 3 }, s14_gstrs_b },
     { "sp_xgemv on ALL(1..3) x vals2 x type4 x trans6 x alpha5 x beta5", 6, { N_ALL123, 2, 4, 6, 5, 5 }, s14_gemv_sq },
     { "sp_xgemv on all patterns of 2x1,3x1,3x2,1x2,2x3,4x2 x vals2 x type4 x trans6 x alpha5 x beta5", 6, { 2 + 8 + 64 + 4 + 64 + 256, 2, 4, 6, 5, 5 }, s14_gemv_rect },
+    { "sp_xgemv with strides as documented: rectangular patterns x vals2 x type4 x trans6 x alpha5 x beta5 x increment{2,3,-1,-2} of the free vector (x for N, y for T/C)", 7, { 2 + 8 + 64 + 4 + 64 + 256, 2, 4, 6, 5, 5, 4 }, s14_gemv_str },
     { "sp_xgemm on rectangular patterns x vals2 x type4 x transa6 x alpha5 x beta5 x ncols{1,2} x padding2", 8, { 2 + 8 + 64 + 4 + 64 + 256, 2, 4, 6, 5, 5, 2, 2 }, s14_gemm },
     { "sp_xgemm on ALL(1..2) x vals2 x type4 x transa6 x alpha5 x beta5 x ncols{1,2} x padding2", 8, { 18, 2, 4, 6, 5, 5, 2, 2 }, s14_gemm_sq },
 };
@@ -127,24 +129,33 @@ static void run_gemv(const vcase *c, vres *r, int gemm)
     vf_sparse S; sp_from_dense(&S, T, &A, 0);
     int it = c->trans, trans = it % 3; double _Complex alpha = coef(T, c->k / 5), beta = coef(T, c->k % 5);
     int lenx = trans ? m : n, leny = trans ? n : m, ncols = gemm ? c->nrhs : 1, ldx = lenx + (gemm ? c->ldbx : 0), ldy = leny + (gemm ? c->ldbx * 2 : 0);
+    /* strides as documented (sp_xgemv only): the free vector - x for op(A)=A, y for the transposed forms - is stored with increment STRIDE[aux2]; negative
+     * increments follow the BLAS convention (element i at (len-1-i)*|inc|).  XP/YP map a logical index to its position; the gaps hold sentinels. */
+    static const int STRIDE[] = { 1, 2, 3, -1, -2 }; int inc = gemm ? 1 : STRIDE[c->aux2 % 5], incx = trans ? 1 : inc, incy = trans ? inc : 1;
+    if (incx != 1) ldx = (lenx - 1) * abs(incx) + 1; if (incy != 1) ldy = (leny - 1) * abs(incy) + 1;
     if (ldx < 1) ldx = 1; if (ldy < 1) ldy = 1;
+#define XP(i) ((incx) > 0 ? (i) * (incx) : ((lenx) - 1 - (i)) * -(incx))
+#define YP(i) ((incy) > 0 ? (i) * (incy) : ((leny) - 1 - (i)) * -(incy))
+    if (inc != 1) WK_COUNT(K_MVSTR);
     char *xb = malloc(T->esz * (size_t)ldx * ncols + 16), *yb = malloc(T->esz * (size_t)ldy * ncols + 16), *x0 = malloc(T->esz * (size_t)ldx * ncols + 16);
     dmat X, Y; memset(&X, 0, sizeof X); memset(&Y, 0, sizeof Y);
     int beta0 = (beta == 0);
     for (int cc = 0; cc < ncols; cc++) {
-        for (int i = 0; i < ldx; i++) { xc v = i < lenx ? (xr)((i * 2 + cc + 1) % 5 - 2) * 0.75L + (T->cplx ? (xr)(i % 2) * 0.5L * I : 0) : 5555.5L; T->st(xb, i + (long)cc * ldx, (double _Complex)v); if (i < lenx) DM(&X, i, cc) = T->ld(xb, i + (long)cc * ldx); }
-        for (int i = 0; i < ldy; i++) {
-            xc v = i < leny ? (xr)((i * 3 + cc) % 4 + 1) * ((i & 1) ? -1.5L : 0.5L) : 6666.5L;
-            if (beta0 && i < leny) T->st(yb, i + (long)cc * ldy, (double _Complex)(NAN + (T->cplx ? NAN * I : 0)));   /* "Y need not be set on input" when beta is zero */
-            else T->st(yb, i + (long)cc * ldy, (double _Complex)v);
-            if (i < leny) DM(&Y, i, cc) = beta0 ? 0 : T->ld(yb, i + (long)cc * ldy);
+        for (int i = 0; i < ldx; i++) T->st(xb, i + (long)cc * ldx, 5555.5);
+        for (int i = 0; i < lenx; i++) { xc v = (xr)((i * 2 + cc + 1) % 5 - 2) * 0.75L + (T->cplx ? (xr)(i % 2) * 0.5L * I : 0); T->st(xb, XP(i) + (long)cc * ldx, (double _Complex)v); DM(&X, i, cc) = T->ld(xb, XP(i) + (long)cc * ldx); }
+        for (int i = 0; i < ldy; i++) T->st(yb, i + (long)cc * ldy, 6666.5);
+        for (int i = 0; i < leny; i++) {
+            xc v = (xr)((i * 3 + cc) % 4 + 1) * ((i & 1) ? -1.5L : 0.5L);
+            if (beta0) T->st(yb, YP(i) + (long)cc * ldy, (double _Complex)(NAN + (T->cplx ? NAN * I : 0)));   /* "Y need not be set on input" when beta is zero */
+            else T->st(yb, YP(i) + (long)cc * ldy, (double _Complex)v);
+            DM(&Y, i, cc) = beta0 ? 0 : T->ld(yb, YP(i) + (long)cc * ldy);
         }
     }
     memcpy(x0, xb, T->esz * (size_t)ldx * ncols);
     dmat A0; sp_to_dense(&S, &A0);
     int rc;
     if (gemm) { rc = T->sp_gemm((char *)TRN[it], (c->k & 1) ? "n" : "N", leny, ncols, lenx, alpha, &S.A, xb, ldx, beta, yb, ldy); WK_COUNT(K_MM); }
-    else { rc = T->sp_gemv((char *)TRN[it], alpha, &S.A, xb, 1, beta, yb, 1); WK_COUNT(K_MV); }
+    else { rc = T->sp_gemv((char *)TRN[it], alpha, &S.A, xb, incx, beta, yb, incy); WK_COUNT(K_MV); }
     (void)rc;
     if (beta0) WK_COUNT(K_MVNAN); if (m != n) WK_COUNT(K_MVRECT);
     r->nontrivial = (S.nnz > 0); r->outcome = (uint64_t)c->k * 13 + it;
@@ -154,14 +165,15 @@ static void run_gemv(const vcase *c, vres *r, int gemm)
         if (memcmp(x0, xb, T->esz * (size_t)ldx * ncols)) { wk_fail(r, "x-modified", "sp_%cgem%c modified its input vector/matrix", T->letter, gemm ? 'm' : 'v'); goto done; }
         xr worst = 0; int nz = (int)S.nnz;
         for (int cc = 0; cc < ncols; cc++) {
-            for (int i = leny; i < ldy; i++) if (creall(T->ld(yb, i + (long)cc * ldy)) != 6666.5L) { wk_fail(r, "padding-overwritten", "padding row %d of output column %d modified", i, cc); goto done; }
+            { char isel[NMAX * 4 + 8]; memset(isel, 0, sizeof isel); for (int i = 0; i < leny; i++) isel[YP(i)] = 1;
+              for (int i = 0; i < ldy; i++) if (!isel[i] && (creall(T->ld(yb, i + (long)cc * ldy)) != 6666.5L || cimagl(T->ld(yb, i + (long)cc * ldy)) != 0)) { wk_fail(r, "padding-overwritten", "position %d of output column %d is not an element of y (incy=%d) but was modified", i, cc, incy); goto done; } }
             for (int i = 0; i < leny; i++) {
                 xc want = (xc)beta * DM(&Y, i, cc); xr mag = cabsl((xc)beta) * cabsl(DM(&Y, i, cc));
                 for (int j = 0; j < lenx; j++) { xc a = trans ? DM(&A, j, i) : DM(&A, i, j); if (trans == 2) a = conjl(a); want += (xc)alpha * a * DM(&X, j, cc); mag += cabsl((xc)alpha) * cabsl(a) * cabsl(DM(&X, j, cc)); }
-                xc got = T->ld(yb, i + (long)cc * ldy); xr err = cabsl(got - want), allow = 4.0L * (nz + 2) * T->eps * mag + 8 * T->sfmin;
+                xc got = T->ld(yb, YP(i) + (long)cc * ldy); xr err = cabsl(got - want), allow = 4.0L * (nz + 2) * T->eps * mag + 8 * T->sfmin;
                 if (err > allow || err != err) {
-                    wk_fail(r, (it >= 3) ? "gemv-lowercase-wrong" : (trans == 2 && T->cplx) ? "gemv-conj" : "gemv-result", "sp_%cgem%c(\"%s\", alpha=%g%+gi, beta=%g%+gi) on %dx%d: y[%d] = %Lg%+Lgi, expected %Lg%+Lgi", T->letter, gemm ? 'm' : 'v', TRN[it],
-                            creal(alpha), cimag(alpha), creal(beta), cimag(beta), m, n, i, creall(got), cimagl(got), creall(want), cimagl(want));
+                    wk_fail(r, (it >= 3) ? "gemv-lowercase-wrong" : (trans == 2 && T->cplx) ? "gemv-conj" : "gemv-result", "sp_%cgem%c(\"%s\", alpha=%g%+gi, beta=%g%+gi) on %dx%d incx=%d incy=%d: y[%d] = %Lg%+Lgi, expected %Lg%+Lgi", T->letter, gemm ? 'm' : 'v', TRN[it],
+                            creal(alpha), cimag(alpha), creal(beta), cimag(beta), m, n, incx, incy, i, creall(got), cimagl(got), creall(want), cimagl(want));
                     goto done;
                 }
                 if (allow > 0 && err / allow > worst) worst = err / allow;
